@@ -222,4 +222,6 @@ class PLBVFU1(PLBVFU1Model, PLBVFU1Data):
         Numeric initialization to disable corresponding ``StaticGen``.
         """
 
-        self.system.groups['StaticGen'].set(src='u', idx=self.gen.v, attr='v', value=0)
+        # only devices in service replace their static counterparts
+        mask_idx = [self.gen.v[i] for i in range(self.n) if self.u.v[i] == 1]
+        self.system.groups['StaticGen'].set(src='u', idx=mask_idx, attr='v', value=0)
